@@ -1,33 +1,409 @@
-import DswModel.Tie.ArithStubs
+import DswModel.Tie.OpAdd
+import DswModel.Tie.OpMul
+import DswModel.Tie.OpDiv
 /-!
 # Translation tie — `dna_to_number`, `number_to_dna`
 
 The generated definitions compute the model functions `dnaToNumberStr`, `dnaToNumberInt`,
 `numberToDnaStr`, `numberToDnaInt` (a character outside `ACGT` is `ValueError` on both sides).
+
+Proof plan.  Model side first: the decimal-string arithmetic keeps `Digits` (`Digits_calculusAddition`,
+`Digits_calculusMultiplication`, `calculusDivision_four`).  `dna_to_number`: the `map(nucleotides.index, …)`
+is `nucValues` (`mapM_index`); both `for` loops are left folds (`forLoop_rel_map`).  `number_to_dna`: the
+string `while` loop is tied to `digitsStrLoop 4` iteration by iteration (induction on the model's fuel),
+the integer one to `digitsNat 4` (induction on a bound `n < 2 ^ G`); `k1` is `padDna`.
 -/
 namespace Dsw.Tie
-open Dsw Dsw.Py Dsw.Tie.Stub
+open Dsw Dsw.Py
+
+namespace DnaTie
+
+/-! ### model side: the decimal-string arithmetic keeps `Digits` -/
+
+theorem addStep_foldr_inv (ps : List (Nat × Nat)) (hp : ∀ p ∈ ps, p.1 < 10 ∧ p.2 < 10) :
+    (ps.foldr addStep (0, [])).1 ≤ 1 ∧ Digits (ps.foldr addStep (0, [])).2 := by
+  induction ps with
+  | nil => exact ⟨Nat.zero_le _, Digits_nil⟩
+  | cons p ps ih =>
+    obtain ⟨h1, h2⟩ := ih (fun q hq => hp q (by simp [hq]))
+    obtain ⟨hp1, hp2⟩ := hp p (by simp)
+    simp only [List.foldr_cons, addStep, Digits_cons]
+    exact ⟨by omega, by omega, h2⟩
+
+theorem Digits_calculusAddition {s : Dec} (hs : Digits s) {b : Nat} (hb : b < 10) :
+    Digits (calculusAddition s b) := by
+  have hp : ∀ p ∈ s.zip (List.replicate (s.length - 1) 0 ++ [b]), p.1 < 10 ∧ p.2 < 10 := by
+    intro p hp
+    obtain ⟨x, y⟩ := p
+    obtain ⟨hx, hy⟩ := List.of_mem_zip hp
+    refine ⟨hs x hx, ?_⟩
+    rcases List.mem_append.mp hy with hy | hy
+    · rw [(List.mem_replicate.mp hy).2]; omega
+    · rw [List.mem_singleton.mp hy]; exact hb
+  obtain ⟨h1, h2⟩ := addStep_foldr_inv _ hp
+  have hall : Digits ((List.foldr addStep (0, []) (s.zip (List.replicate (s.length - 1) 0 ++ [b]))).1 ::
+      (List.foldr addStep (0, []) (s.zip (List.replicate (s.length - 1) 0 ++ [b]))).2) :=
+    Digits_cons.mpr ⟨by omega, h2⟩
+  unfold calculusAddition
+  simp only
+  split
+  · exact hall.tail
+  · exact hall
+
+theorem mulStep_foldr_inv {b : Nat} (hb : b < 10) (s : Dec) (hs : Digits s) :
+    (s.foldr (mulStep b) (0, [])).1 < 10 ∧ Digits (s.foldr (mulStep b) (0, [])).2 := by
+  induction s with
+  | nil => exact ⟨by show (0 : Nat) < 10; omega, Digits_nil⟩
+  | cons x s ih =>
+    rw [Digits_cons] at hs
+    obtain ⟨h1, h2⟩ := ih hs.2
+    have hx := hs.1
+    have hxb : x * b ≤ 9 * 9 := Nat.mul_le_mul (by omega) (by omega)
+    simp only [List.foldr_cons, mulStep, Digits_cons]
+    exact ⟨by omega, by omega, h2⟩
+
+theorem Digits_pushCarry (f r : Nat) (acc : List Nat) (h : Digits acc) : Digits (pushCarry f r acc) := by
+  induction f generalizing r acc with
+  | zero => exact h
+  | succ f ih =>
+    rw [pushCarry]
+    split
+    · exact ih _ _ (Digits_cons.mpr ⟨Nat.mod_lt _ (by omega), h⟩)
+    · exact h
+
+theorem Digits_calculusMultiplication {s : Dec} (hs : Digits s) {b : Nat} (hb : b < 10) :
+    Digits (calculusMultiplication s b) := by
+  unfold calculusMultiplication
+  split
+  · simp
+  · split
+    · exact hs
+    · exact Digits_pushCarry _ _ _ (mulStep_foldr_inv hb s hs).2
+
+theorem Digits_stripZeros {s : Dec} (hs : Digits s) : Digits (stripZeros s) := by
+  induction s with
+  | nil => simp [stripZeros]
+  | cons d r ih =>
+    cases d with
+    | zero => rw [stripZeros]; exact ih (Digits_cons.mp hs).2
+    | succ n => exact hs
+
+theorem divStep_foldl_inv {b : Nat} (hb2 : 2 ≤ b) (hb : b < 10) (s : Dec) (hs : Digits s)
+    (st : List Nat × Nat) (h1 : st.2 < b) (h2 : Digits st.1) :
+    (s.foldl (divStep b) st).2 < b ∧ Digits (s.foldl (divStep b) st).1 := by
+  induction s generalizing st with
+  | nil => exact ⟨h1, h2⟩
+  | cons x s ih =>
+    rw [Digits_cons] at hs
+    have hx := hs.1
+    rw [List.foldl_cons]
+    apply ih hs.2
+    · simp only [divStep]
+      split
+      · have := Nat.mod_lt (x + st.2 * 10) (show b > 0 by omega)
+        have h3 := Nat.div_add_mod (x + st.2 * 10) b
+        rw [Nat.mul_comm] at h3
+        show x + st.2 * 10 - (x + st.2 * 10) / b * b < b
+        omega
+      · show x + st.2 * 10 < b
+        omega
+    · simp only [divStep]
+      split
+      · have hq : (x + st.2 * 10) / b < 10 := by
+          rw [Nat.div_lt_iff_lt_mul (by omega)]
+          have : st.2 * 10 + 10 ≤ b * 10 := by omega
+          omega
+        exact Digits_cons.mpr ⟨hq, h2⟩
+      · exact Digits_cons.mpr ⟨by omega, h2⟩
+
+/-- `calculus_division(n, "4")` on any digit string: a digit string and a one-digit remainder below 4. -/
+theorem calculusDivision_four {n : Dec} (hn : Digits n) :
+    ∃ r, r < 4 ∧ (calculusDivision n 4).2 = [r] ∧ Digits (calculusDivision n 4).1 := by
+  unfold calculusDivision
+  simp only [show ¬ (4 = 0) by omega, show ¬ (4 = 1) by omega, if_false]
+  split
+  · next hg => exact ⟨n.headD 0, hg.2, rfl, by simp⟩
+  · obtain ⟨h1, h2⟩ := divStep_foldl_inv (b := 4) (by omega) (by omega) n hn ([], 0) (by simp) Digits_nil
+    exact ⟨_, h1, rfl, Digits_stripZeros h2.reverse⟩
+
+theorem digitsNat_four_zero (acc : List Nat) : digitsNat 4 0 acc = acc := by
+  rw [digitsNat]; simp
+
+theorem digitsNat_four_pos {n : Nat} (hn : n ≠ 0) (acc : List Nat) :
+    digitsNat 4 n acc = digitsNat 4 (n / 4) (n % 4 :: acc) := by
+  rw [digitsNat]; simp [hn]
+
+theorem nucValues_lt {s : List Char} {vs : List Nat} (h : nucValues s = .ok vs) : ∀ v ∈ vs, v < 4 := by
+  induction s generalizing vs with
+  | nil =>
+    simp only [nucValues] at h
+    injection h with h; subst h; simp
+  | cons c s ih =>
+    simp only [nucValues] at h
+    cases hc : nucIdx c with
+    | none => rw [hc] at h; cases h
+    | some j =>
+      rw [hc] at h
+      cases hs : nucValues s with
+      | error err => rw [hs] at h; cases h
+      | ok ws =>
+        rw [hs] at h
+        injection h with h; subst h
+        intro v hv
+        rcases List.mem_cons.mp hv with rfl | hv
+        · exact nucIdx_lt hc
+        · exact ih hs v hv
+
+/-! ### shared pieces of generated code -/
+
+/-- `str(len(nucleotides))`. -/
+theorem len_nuc_str : (bnd (pyLen (.str ['A', 'C', 'G', 'T'])) fun t => pyStr t) = .ok (dstr [4]) := rfl
+
+/-- `len(nucleotides)`. -/
+theorem len_nuc : pyLen (.str ['A', 'C', 'G', 'T']) = .ok (.int 4) := rfl
+
+theorem pyTypeIs_dstr_str (n : Dec) : pyTypeIs (dstr n) "str" = true := rfl
+
+/-- `map(nucleotides.index, dna_sequence)` is `nucValues`. -/
+theorem mapM_index (s : List Char) :
+    mapM' (fun x => pyStrIndex (.str ['A', 'C', 'G', 'T']) x) (s.map fun c => PV.str [c]) =
+      (nucValues s).map fun vs => vs.map fun (n : Nat) => PV.int (n : Int) := by
+  induction s with
+  | nil => rfl
+  | cons c s ih =>
+    rw [List.map_cons, mapM'_cons, pyStrIndex_ACGT, nucValues, ih]
+    cases nucIdx c with
+    | none => rfl
+    | some j =>
+      simp only [bnd_ok]
+      cases nucValues s <;> rfl
+
+/-! ### `dna_to_number` -/
+
+/-- string path: the environment holds the decimal string `st`. -/
+def StrRel (st : Dec) (e : Gen.dna_to_number.Env) : Prop :=
+  e.nucleotides = .str ['A', 'C', 'G', 'T'] ∧ e.decimal_number = dstr st ∧ Digits st
+
+theorem for1_body_spec (fuel : Nat) (hf : 3 ≤ fuel) (v : Nat) (hv : v < 10) (st : Dec)
+    (e : Gen.dna_to_number.Env) (hr : StrRel st e) :
+    ∃ e', Gen.dna_to_number.for1_body fuel (.int (v : Int)) e = .ok (.norm e') ∧
+      StrRel (calculusAddition (calculusMultiplication st 4) v) e' := by
+  obtain ⟨hnuc, hdec, hdig⟩ := hr
+  have hm : Digits (calculusMultiplication st 4) := Digits_calculusMultiplication hdig (by omega)
+  simp only [Gen.dna_to_number.for1_body, hnuc, hdec, len_nuc_str, bnd_ok,
+    tie_calculus_multiplication st 4 fuel hdig (by omega) (by omega), pyStr_digit hv, ← dstr_singleton,
+    tie_calculus_addition _ v fuel hm hv hf]
+  exact ⟨_, rfl, rfl, rfl, Digits_calculusAddition hm hv⟩
+
+theorem for1_loop (fuel : Nat) (hf : 3 ≤ fuel) (vs : List Nat) (hvs : ∀ v ∈ vs, v < 10) (st : Dec)
+    (e : Gen.dna_to_number.Env) (h0 : StrRel st e) :
+    ∃ e', forLoop (Gen.dna_to_number.for1_body fuel) (vs.map fun (n : Nat) => PV.int (n : Int)) e =
+        .ok (.norm e') ∧
+      StrRel (vs.foldl (fun n v => calculusAddition (calculusMultiplication n 4) v) st) e' :=
+  forLoop_rel_map StrRel (fun n v => calculusAddition (calculusMultiplication n 4) v)
+    (fun (n : Nat) => PV.int (n : Int))
+    (fun a ha st e hr => for1_body_spec fuel hf a (hvs a ha) st e hr) h0
+
+/-- integer path: the environment holds the number `st`. -/
+def IntRel (st : Nat) (e : Gen.dna_to_number.Env) : Prop :=
+  e.decimal_number = .int (st : Int)
+
+theorem for2_body_spec (fuel : Nat) (v : Nat) (st : Nat) (e : Gen.dna_to_number.Env) (hr : IntRel st e) :
+    ∃ e', Gen.dna_to_number.for2_body fuel (.int (v : Int)) e = .ok (.norm e') ∧ IntRel (st * 4 + v) e' := by
+  have hcast : ((st : Int) * 4 + (v : Int)) = ((st * 4 + v : Nat) : Int) := by push_cast; rfl
+  have hdec : e.decimal_number = .int (st : Int) := hr
+  simp only [Gen.dna_to_number.for2_body, hdec, pyMul_int, pyAdd_int, bnd_ok, hcast]
+  exact ⟨_, rfl, rfl⟩
+
+theorem for2_loop (fuel : Nat) (vs : List Nat) (st : Nat) (e : Gen.dna_to_number.Env) (h0 : IntRel st e) :
+    ∃ e', forLoop (Gen.dna_to_number.for2_body fuel) (vs.map fun (n : Nat) => PV.int (n : Int)) e =
+        .ok (.norm e') ∧
+      IntRel (vs.foldl (fun n v => n * 4 + v) st) e' :=
+  forLoop_rel_map IntRel (fun n v => n * 4 + v) (fun (n : Nat) => PV.int (n : Int))
+    (fun a _ st e hr => for2_body_spec fuel a st e hr) h0
+
+/-! ### `number_to_dna` -/
+
+/-- the list of one-letter strings `one_array` holds. -/
+def nucsPV (l : List Nat) : PV := .list (l.map fun j => PV.str [nucChar j])
+
+theorem while1_cond_spec (fuel : Nat) {n : Dec} (hn : Digits n) (e : Gen.number_to_dna.Env)
+    (hdec : e.decimal_number = dstr n) :
+    Gen.number_to_dna.while1_cond fuel e = .ok (!decide (n = [0])) := by
+  simp only [Gen.number_to_dna.while1_cond, hdec, pyNe_def, str_lit_zero,
+    eqb_dstr hn (show Digits [0] by simp)]
+
+theorem while1_body_spec (fuel : Nat) {n : Dec} (hn : Digits n) (acc : List Nat)
+    (e : Gen.number_to_dna.Env) (hdec : e.decimal_number = dstr n) (hone : e.one_array = nucsPV acc)
+    (hnuc : e.nucleotides = .str ['A', 'C', 'G', 'T']) :
+    ∃ e', Gen.number_to_dna.while1_body fuel e = .ok (.norm e') ∧
+      e'.decimal_number = dstr (calculusDivision n 4).1 ∧
+      e'.one_array = nucsPV ((calculusDivision n 4).2.toNat :: acc) ∧
+      e'.nucleotides = .str ['A', 'C', 'G', 'T'] ∧ e'.dna_length = e.dna_length := by
+  obtain ⟨r, hr, h2, _⟩ := calculusDivision_four hn
+  have hint : pyInt (dstr [r]) = .ok (.int (r : Int)) := pyInt_digit (show r < 10 by omega)
+  simp only [Gen.number_to_dna.while1_body, hnuc, hdec, hone, len_nuc_str, bnd_ok,
+    tie_calculus_division n 4 fuel hn (by omega), h2, pyUnpack_two_tup, getD_cons_zero', getD_cons_one',
+    hint, pyIndex_ACGT hr, nucsPV, pyInsert_list_zero]
+  refine ⟨_, rfl, rfl, ?_, rfl, rfl⟩
+  simp [Dec.toNat]
+
+theorem while1_loop (fuel : Nat) : ∀ (f : Nat) (n : Dec) (acc one : List Nat) (e : Gen.number_to_dna.Env)
+    (F : Nat), Digits n → e.decimal_number = dstr n → e.one_array = nucsPV acc →
+    e.nucleotides = .str ['A', 'C', 'G', 'T'] → digitsStrLoop 4 f n acc = .ok one → f ≤ F →
+    ∃ e', whileLoop (Gen.number_to_dna.while1_cond fuel) (Gen.number_to_dna.while1_body fuel) F e =
+        .ok (.norm e') ∧
+      e'.one_array = nucsPV one ∧ e'.nucleotides = .str ['A', 'C', 'G', 'T'] ∧
+      e'.dna_length = e.dna_length := by
+  intro f
+  induction f with
+  | zero =>
+    intro n acc one e F _ _ _ _ h _
+    simp [digitsStrLoop] at h
+  | succ f ih =>
+    intro n acc one e F hn hdec hone hnuc h hF
+    obtain ⟨F', rfl⟩ : ∃ F', F = F' + 1 := ⟨F - 1, by omega⟩
+    rw [digitsStrLoop] at h
+    by_cases hz : n = [0]
+    · rw [if_pos hz] at h
+      injection h with h
+      subst h
+      refine ⟨e, whileLoop_false ?_ F', hone, hnuc, rfl⟩
+      rw [while1_cond_spec fuel hn e hdec]; simp [hz]
+    · rw [if_neg hz] at h
+      obtain ⟨e1, hb, hdec1, hone1, hnuc1, hlen1⟩ := while1_body_spec fuel hn acc e hdec hone hnuc
+      obtain ⟨_, _, _, hq⟩ := calculusDivision_four hn
+      obtain ⟨e2, hl, hone2, hnuc2, hlen2⟩ := ih _ _ one e1 F' hq hdec1 hone1 hnuc1 h (by omega)
+      refine ⟨e2, ?_, hone2, hnuc2, by rw [hlen2, hlen1]⟩
+      rw [whileLoop_true_norm ?_ hb, hl]
+      rw [while1_cond_spec fuel hn e hdec]; simp [hz]
+
+theorem while2_cond_spec (fuel : Nat) (n : Nat) (e : Gen.number_to_dna.Env)
+    (hdec : e.decimal_number = .int (n : Int)) :
+    Gen.number_to_dna.while2_cond fuel e = .ok (decide (0 < n)) := by
+  simp only [Gen.number_to_dna.while2_cond, hdec, pyGt_nat_zero]
+
+theorem while2_body_spec (fuel : Nat) (n : Nat) (acc : List Nat)
+    (e : Gen.number_to_dna.Env) (hdec : e.decimal_number = .int (n : Int)) (hone : e.one_array = nucsPV acc)
+    (hnuc : e.nucleotides = .str ['A', 'C', 'G', 'T']) :
+    ∃ e', Gen.number_to_dna.while2_body fuel e = .ok (.norm e') ∧
+      e'.decimal_number = .int ((n / 4 : Nat) : Int) ∧
+      e'.one_array = nucsPV (n % 4 :: acc) ∧
+      e'.nucleotides = .str ['A', 'C', 'G', 'T'] ∧ e'.dna_length = e.dna_length := by
+  simp only [Gen.number_to_dna.while2_body, hnuc, hdec, hone, len_nuc, bnd_ok, pyDivmod_nat_four,
+    pyUnpack_two_tup, getD_cons_zero', getD_cons_one', pyIndex_ACGT (Nat.mod_lt n (show 4 > 0 by omega)),
+    nucsPV, pyInsert_list_zero]
+  exact ⟨_, rfl, rfl, rfl, rfl, rfl⟩
+
+theorem while2_loop (fuel : Nat) : ∀ (G n : Nat) (acc : List Nat) (e : Gen.number_to_dna.Env),
+    n < 2 ^ G → e.decimal_number = .int (n : Int) → e.one_array = nucsPV acc →
+    e.nucleotides = .str ['A', 'C', 'G', 'T'] →
+    ∃ e', whileLoop (Gen.number_to_dna.while2_cond fuel) (Gen.number_to_dna.while2_body fuel) (G + 1) e =
+        .ok (.norm e') ∧
+      e'.one_array = nucsPV (digitsNat 4 n acc) ∧ e'.nucleotides = .str ['A', 'C', 'G', 'T'] ∧
+      e'.dna_length = e.dna_length := by
+  intro G
+  induction G with
+  | zero =>
+    intro n acc e hn hdec hone hnuc
+    have hn0 : n = 0 := by simpa using hn
+    subst hn0
+    refine ⟨e, whileLoop_false ?_ 0, by rw [digitsNat_four_zero]; exact hone, hnuc, rfl⟩
+    rw [while2_cond_spec fuel 0 e hdec]; rfl
+  | succ G ih =>
+    intro n acc e hn hdec hone hnuc
+    by_cases hz : n = 0
+    · subst hz
+      refine ⟨e, whileLoop_false ?_ _, by rw [digitsNat_four_zero]; exact hone, hnuc, rfl⟩
+      rw [while2_cond_spec fuel 0 e hdec]; rfl
+    · obtain ⟨e1, hb, hdec1, hone1, hnuc1, hlen1⟩ := while2_body_spec fuel n acc e hdec hone hnuc
+      have hlt : n / 4 < 2 ^ G := by
+        rw [Nat.pow_succ] at hn; omega
+      obtain ⟨e2, hl, hone2, hnuc2, hlen2⟩ := ih (n / 4) _ e1 hlt hdec1 hone1 hnuc1
+      refine ⟨e2, ?_, by rw [digitsNat_four_pos hz]; exact hone2, hnuc2, by rw [hlen2, hlen1]⟩
+      rw [whileLoop_true_norm ?_ hb, hl]
+      rw [while2_cond_spec fuel n e hdec]; simp; omega
+
+/-- `k1`: join the letters, pad on the left with `A`. -/
+theorem k1_spec (fuel : Nat) (one : List Nat) (L : Nat) (e : Gen.number_to_dna.Env)
+    (hone : e.one_array = nucsPV one) (hnuc : e.nucleotides = .str ['A', 'C', 'G', 'T'])
+    (hlen : e.dna_length = .int (L : Int)) :
+    Gen.number_to_dna.k1 fuel e = .ok (.ret (cstr (padDna one L))) := by
+  simp only [Gen.number_to_dna.k1, hone, nucsPV, pyJoin_empty_chars nucChar one, bnd_ok, hnuc,
+    pyIndex_str_cons_zero, pyLen_str, hlen, pySub_int, pyMul_str_int, replicateList_singleton,
+    toNat_sub_natCast, pyAdd_str, List.length_map, padDna, cstr]
+
+end DnaTie
+
+open DnaTie
 
 theorem tie_dna_to_number_str (s : List Char) (fuel : Nat) (hf : 3 ≤ fuel) :
     Gen.dna_to_number fuel (cstr s) (.bool true) = (dnaToNumberStr s).map dstr := by
-  sorry
+  simp only [Gen.dna_to_number, Gen.dna_to_number.body, cstr, pyMap_str, mapM_index, dnaToNumberStr]
+  cases hnv : nucValues s with
+  | error err => rfl
+  | ok vs =>
+    simp only [R_map_ok, bnd_ok, pyList_list, truthy_bool, if_true, pyIter_list]
+    have hvs : ∀ v ∈ vs, v < 10 := fun v hv => by have := nucValues_lt hnv v hv; omega
+    apply callResult_seq_of_norm
+      (StrRel (vs.foldl (fun n v => calculusAddition (calculusMultiplication n 4) v) [0]))
+    · exact for1_loop fuel hf vs hvs [0] _ ⟨rfl, rfl, by simp⟩
+    · intro e' h
+      simp only [Gen.dna_to_number.k1, h.2.1, callResult_ret]
 
 theorem tie_dna_to_number_int (s : List Char) (fuel : Nat) :
-    Gen.dna_to_number fuel (cstr s) (.bool false) = (dnaToNumberInt s).map fun n => PV.int (n : Int) := by
-  sorry
+    Gen.dna_to_number fuel (cstr s) (.bool false) = (dnaToNumberInt s).map (fun (n : Nat) => PV.int (n : Int)) := by
+  simp only [Gen.dna_to_number, Gen.dna_to_number.body, cstr, pyMap_str, mapM_index, dnaToNumberInt]
+  cases hnv : nucValues s with
+  | error err => rfl
+  | ok vs =>
+    simp only [R_map_ok, bnd_ok, pyList_list, truthy_bool, Bool.false_eq_true, if_false, pyIter_list]
+    apply callResult_seq_of_norm (IntRel (vs.foldl (fun n v => n * 4 + v) 0))
+    · exact for2_loop fuel vs 0 _ rfl
+    · intro e' h
+      have h' : e'.decimal_number = .int ((vs.foldl (fun n v => n * 4 + v) 0 : Nat) : Int) := h
+      simp only [Gen.dna_to_number.k1, h', callResult_ret]
 
 theorem tie_number_to_dna_str (n : Dec) (L fuel : Nat) (r : List Char) (hn : Digits n)
     (h : numberToDnaStr n L = .ok r) (hf : digitsFuel n + 1 ≤ fuel) :
     Gen.number_to_dna fuel (dstr n) (.int L) = .ok (cstr r) := by
-  sorry
+  unfold numberToDnaStr at h
+  cases hl : digitsStrLoop 4 (digitsFuel n) n [] with
+  | error err => rw [hl] at h; cases h
+  | ok one =>
+    rw [hl] at h
+    injection h with h
+    subst h
+    simp only [Gen.number_to_dna, Gen.number_to_dna.body, pyTypeIs_dstr_str, bnd_ok, if_true]
+    apply callResult_seq_of_norm (fun e' => e'.one_array = nucsPV one ∧
+      e'.nucleotides = .str ['A', 'C', 'G', 'T'] ∧ e'.dna_length = .int (L : Int))
+    · exact while1_loop fuel (digitsFuel n) n [] one _ fuel hn rfl rfl rfl hl (by omega)
+    · intro e' ⟨h1, h2, h3⟩
+      rw [k1_spec fuel one L e' h1 h2 h3]; rfl
 
 theorem tie_number_to_dna_int (n L fuel : Nat) (hf : Nat.log2 n + 2 ≤ fuel) :
     Gen.number_to_dna fuel (.int n) (.int L) = .ok (cstr (numberToDnaInt n L)) := by
-  sorry
+  obtain ⟨G, rfl⟩ : ∃ G, fuel = G + 1 := ⟨fuel - 1, by omega⟩
+  have hlt : n < 2 ^ G :=
+    Nat.lt_of_lt_of_le (Nat.lt_log2_self (n := n)) (Nat.pow_le_pow_right (by omega) (by omega))
+  simp only [Gen.number_to_dna, Gen.number_to_dna.body, pyTypeIs_int_str, pyTypeIs_int_int, bnd_ok,
+    Bool.false_eq_true, if_false, if_true]
+  apply callResult_seq_of_norm (fun e' => e'.one_array = nucsPV (digitsNat 4 n []) ∧
+    e'.nucleotides = .str ['A', 'C', 'G', 'T'] ∧ e'.dna_length = .int (L : Int))
+  · exact while2_loop (G + 1) G n [] _ hlt rfl rfl rfl
+  · intro e' ⟨h1, h2, h3⟩
+    rw [k1_spec (G + 1) _ L e' h1 h2 h3]; rfl
 
 theorem tie_number_to_dna_other (v L : PV) (fuel : Nat) (h1 : ∀ s, v ≠ .str s) (h2 : ∀ i, v ≠ .int i)
     (h3 : v ≠ .unbound) :
     Gen.number_to_dna fuel v L = .error .valueError := by
-  sorry
+  cases v with
+  | str s => exact absurd rfl (h1 s)
+  | int i => exact absurd rfl (h2 i)
+  | list l => simp [Gen.number_to_dna, Gen.number_to_dna.body, pyTypeIs]
+  | tup l => simp [Gen.number_to_dna, Gen.number_to_dna.body, pyTypeIs]
+  | bool b => simp [Gen.number_to_dna, Gen.number_to_dna.body, pyTypeIs]
+  | none => simp [Gen.number_to_dna, Gen.number_to_dna.body, pyTypeIs]
+  | unbound => exact absurd rfl h3
 
 end Dsw.Tie
